@@ -61,7 +61,12 @@ func rewrite(src []byte, augs []Augmentation) ([]byte, []PosAdjustment) {
 	//
 	// Sort all augs by Start offset to retain the above ordering while ensuring
 	// that augmentations get written to the `dst` Buffer in order.
-	sort.Slice(augs, func(i, j int) bool { return augs[i].Start() < augs[j].Start() })
+	//
+	// The sort has to be stable: FakePackage, FakeFunc and the Dots of a
+	// leading "..." all start at offset 0, and sort.Slice keeps the order of
+	// equal elements only for short lists. With a dozen augmentations or
+	// more they could change places.
+	sort.SliceStable(augs, func(i, j int) bool { return augs[i].Start() < augs[j].Start() })
 	for _, aug := range augs {
 		start, end := aug.Start(), aug.End()
 		dst.Write(src[pos:start])
